@@ -21,6 +21,9 @@ type c03Case struct {
 	X     vfB     `json:"x"`
 	Limit uint32  `json:"limit"`
 	Exts  []vfExt `json:"exts,omitempty"` // Extend calls applied before detection (tree restored afterwards)
+	// OnResult: Extend is also called on a value RETURNED by an earlier detection (and on its
+	// parent). Returned values are clones, so this must not change the tree.
+	OnResult bool `json:"extend_on_result,omitempty"`
 }
 
 var (
@@ -71,10 +74,23 @@ func c03Check(c c03Case) vfResult {
 	vfTreeRestore()
 	c03Orig = nil
 	defer vfTreeRestore()
+	var shadow *vfShadow
+	if len(c.Exts) > 0 || c.OnResult {
+		shadow = vfShadowFrom(root, nil) // model of the tree, independent of what happens to the live one
+	}
 	for _, e := range c.Exts {
 		if err := e.apply(); err != nil {
 			return vfResult{Skip: "extend-parent-missing"}
 		}
+		_ = shadow.extend(e)
+	}
+	if c.OnResult {
+		m0 := vfDetectAt([]byte(c.X), c.Limit)
+		m0.Extend(func([]byte, uint32) bool { return true }, "application/x-verif-onresult", ".onr")
+		if p := m0.Parent(); p != nil {
+			p.Extend(func([]byte, uint32) bool { return true }, "application/x-verif-onresult-parent", ".onp")
+		}
+		r.Labels = append(r.Labels, "extend-called-on-a-returned-value")
 	}
 	c03Wrap()
 	x := []byte(c.X)
@@ -102,6 +118,12 @@ func c03Check(c c03Case) vfResult {
 	if !vfChainEq(chain, want) {
 		r.Err = fmt.Errorf("result chain %s differs from first-match path %s; x=%s limit=%d", vfChainFmt(chain), vfChainFmt(want), vfQ(x), c.Limit)
 		return r
+	}
+	if shadow != nil {
+		if sw, _ := shadow.walk(x, c.Limit); !vfChainEq(chain, sw) {
+			r.Err = fmt.Errorf("result chain %s differs from the first-match path over the MODEL of the extended tree %s (the live tree no longer matches the sequence of Extend calls); x=%s limit=%d", vfChainFmt(chain), vfChainFmt(sw), vfQ(x), c.Limit)
+			return r
+		}
 	}
 	// the chain must consist of fresh values, not tree nodes
 	for p := m; p != nil; p = p.Parent() {
@@ -289,7 +311,7 @@ func TestVerif_C03(t *testing.T) {
 				for i, n := 0, rapid.IntRange(1, 5).Draw(t, "next"); i < n; i++ {
 					exts = append(exts, vfGenExt(t, i, exts))
 				}
-				return c03Case{X: x, Limit: vfGenLimit(t, len(x)), Exts: exts}
+				return c03Case{X: x, Limit: vfGenLimit(t, len(x)), Exts: exts, OnResult: rapid.IntRange(0, 3).Draw(t, "onresult") == 0}
 			}})
 	}
 }
